@@ -19,6 +19,7 @@ import common
 from common import enc, dec, err_kind
 from props import c04_hist as H
 from props import c04_cx as X
+from props import c04_tr as TR
 
 ID = "C04"
 RULE = ("exhaustive small universe (coefficients in {-1,0,1,2}, lb<=3, la<=3) plus random shapes of order 0..8 "
@@ -53,8 +54,26 @@ RULE = ("exhaustive small universe (coefficients in {-1,0,1,2}, lb<=3, la<=3) pl
         "values, output compared with the free response; family memread: iterator memories (counting iterator, generator, iter(list), "
         "Stream; lengths 0..lm+3 and endless) on orders 0..4, observed right after the call (items pulled, next items), callable "
         "memories log what they are asked; "
+        "+ round 5 (not cases): the source text of LinearFilter.__call__ is translated into Lean before the build (c04_tr.py) and the "
+        "translator is run on 19 edited copies of that text (each must give a different Lean text or a TranslationError); "
         "a case is non-trivial when the impl yields at least one sample or raises; distinct = distinct JSON case")
 TRUSTED = [
+    "source translator harness/props/c04_tr.py (ast of LinearFilter.__call__ -> lean/ALV/Gen/C04Src.lean, rewritten on every run; "
+    "src_compile_is_model / src_memoryOf_is_model / src_call_is_model prove the regenerated definitions equal to the hand-written "
+    "model): trusted are (a) the python subset semantics it assumes: statements run in order, an if / elif chain takes the first true "
+    "test, `x == c` / `x != c` on a number is equality with the field element c, `len`, `xrange(a, b[, -1])`, int `-` where only "
+    "xrange bounds and `>` tests see the result (truncated subtraction), `'...'.format(...)` substitutes the printed value as an "
+    "atomic operand (checked for the spellings 7, -7, 7/3, -7/3, 1e-05, 2.5 by exact evaluation; T3 checks the real spellings per "
+    "case), `' + '.join` = python's left-associated sum; (b) the vocabulary mapping of ALV/Model/C04SrcVocab.lean: "
+    "`for delay, coeff in iteritems(self.numdict / self.dendict)` = positions of the dense list (zero entries must be inert: proved), "
+    "data_sum.append = list append, `gain` unbound before delay 0 = 0 (the a[0] == 0 guard raised before), memory is None / "
+    "isinstance(memory, Iterable) / memory(lm) / takewhile-enumerate / zero_pad(seq, left, zero=) on the model's `Mem`, "
+    "`self.denpoly[0]` = coefAt den 0, poly.terms() = the term list, ValueError / ZeroDivisionError = Err; (c) the constant-coefficient "
+    "view: isinstance(coeff, Iterable) and isinstance(self.denpoly[0], Stream) are False and the *_iterables lists stay empty (the "
+    "shape of those branches is checked, their meaning is C06's); (d) the generated text it instantiates on sample sizes is read "
+    "with the same reading as T3 (tuple unpacking of memory, chained assignment of zero, m0 = expr, yield m0, shifts). "
+    "Cross-checked: self-test on 19 edited copies of the source text + 3 harmless rewrites (extra checks), T3 and the I/O "
+    "differential on every case",
     "hand-written Lean model ALV/Model/C04.lean of LinearFilter.__init__/__call__ (modelled, not verified: Poly "
     "as a key-sorted association list, the exec'd generator as straight-line IR with sequential assignments and "
     "Python's left-associated '+'); inside Lean the model is proved equal to the specification end to end "
@@ -111,9 +130,16 @@ MANIFEST = {
                  "equation over unbounded histories = the indexed sentence of the property, any field incl. the "
                  "executable Gaussian rationals Q(i) for complex coefficients, all "
                  "lengths; constructor arguments to outputs end to end; histories of lazily consumed streams over a "
-                 "heap of caller objects) + translator tie T3 (captured source vs Lean compile, structural) + exact "
+                 "heap of caller objects) + SOURCE TRANSLATOR (harness/props/c04_tr.py: the text of LinearFilter.__call__ is "
+                 "translated with ast into lean/ALV/Gen/C04Src.lean on every run - coefficient chains, format strings, null-filter "
+                 "test, gain chain, line templates, memory block, guards - and src_compile_is_model / src_memoryOf_is_model / "
+                 "src_call_is_model re-prove it equal to the model) + translator tie T3 (captured source vs Lean compile, structural) + exact "
                  "I/O differential (single calls, long orders / inputs, histories in isolated processes)",
-    "note": "68 theorems, no pending statement, every definition the driver runs is in a theorem statement (105/105); round 4: "
+    "note": "round 5: LinearFilter.__call__ is regenerated from its source text (Gen/C04Src.lean: numBody, denBody, compile, memoryOf, "
+            "call) and proved equal to the hand-written model (src_numLoop_is_model, src_denLoop_is_model, src_compile_is_model, "
+            "src_memoryOf_is_model, src_call_is_model; src_call_eq_spec / src_call_refuses restate the property about the regenerated "
+            "method); not translated: __init__ (Poly arithmetic), evalIR (python's exec), iterator reads; "
+            "76 theorems, no pending statement, every definition the driver runs is in a theorem statement (105/105); round 4: "
             "constructor argument kinds denote the documented polynomial (coefArg_denotes), ZFilter(filt, c) = filt / c (castDiv_is_division), "
             "the gain is applied by division (gain_is_division; over a field = times the inverse, so only T3 + the exact regime pin the "
             "operator: gain_division_value), the trivial generator iff numerator AND feedback are zero (const_loop_iff) and the free "
@@ -1808,7 +1834,14 @@ _SELFTEST_CX_EDITS = [
 ]
 
 
+def regenerate(eng=None):
+    """translator of the source of LinearFilter.__call__ -> lean/ALV/Gen/C04Src.lean (c04_tr.py)"""
+    return TR.regenerate(eng)
+
+
 def extra_checks(eng):
+    for item in TR.selftest(eng):
+        yield item
     ok = parse_source(_SELFTEST_CX_SRC) == _SELFTEST_CX_IR
     yield ("T3-parser-reference-source-complex", ok, "parse_source gave %r" % (parse_source(_SELFTEST_CX_SRC),))
     blind = []
